@@ -251,6 +251,17 @@ func caseC04(c *Ctx) {
 		g := NewGen(c.R, s, &Profile{W: map[string]int{}})
 		spec := g.Filter(4, false)
 		f := spec.Build(s.IDs, entOf)
+		// wrappers must match exactly like the filter they wrap
+		if c.R.Chance(0.3) {
+			rf := ecs.NewRelationFilter(f, ecs.Entity{})
+			f = &rf
+			c.Cov.N["filter_wrapped_relation"]++
+		}
+		if c.R.Chance(0.3) {
+			cf := w.Cache().Register(f)
+			f = &cf
+			c.Cov.N["filter_wrapped_cached"]++
+		}
 		trues := 0
 		for k := 0; k < 200; k++ {
 			var b bset
